@@ -198,3 +198,7 @@ impl WorkerSharedData {
         None
     }
 }
+
+#[cfg(all(greatest_ape_aquatic_verif, kani))]
+#[path = "/verif/harness/in_udp_mio.rs"]
+pub mod verif_harness;
